@@ -281,7 +281,9 @@ def run_impl(cfg):
             elif cfg["T"] > env.now:
                 env.run(until=cfg["T"])
         except Exception as ex:  # noqa
-            crash = type(ex).__name__
+            # the class is what is compared with the model; the message (one line) is kept for the oracle
+            import re as _re
+            crash = type(ex).__name__ + " " + _re.sub(r"0x[0-9a-fA-F]+", "0x", " ".join(str(ex).split()))[:160]
         out += [l for l in log.lines if not (l.startswith("W ") and int(l.split()[1]) >= 1000)]   # edge delay draws: not logged by the model
         if crash == "EXHAUSTED":
             return ["EXHAUSTED"]
